@@ -561,6 +561,38 @@ def r04_3(q, R, spec):
         ok_info = st is not None and st[0] == "st" and st[2].get("info") == T.V("None")
         R.inst(rid, "diff:top-info-none", ok_info, sp=fn["sp"], got=showv(st[2].get("info")) if st and st[0] == "st" else showv(st),
                expect="info: Action::None (namespaces are equal by the guard above)")
+        # the generated tree is returned as generated: nothing is removed from it afterwards (seed C04-7: "no-op" methods pruned together
+        # with their parameter changes)
+        PRUNE = ("retain", "retain_mut", "remove", "shift_remove", "swap_remove", "shift_remove_entry", "swap_remove_entry", "pop", "clear",
+                 "truncate", "drain", "split_off", "shift_remove_index", "swap_remove_index", "filter", "filter_map", "take_while", "skip_while",
+                 "take", "skip", "step_by")
+        pruned = []
+        for n in H.walk(fn["body"]):
+            if n.get("k") != "mcall" or n["name"] not in PRUNE:
+                continue
+            # a pruning that keeps every node with a change of its own *or* a remaining child is property-preserving: accepted when the
+            # `retain` predicate of a diff-node map mentions every field of the node (info, javadoc and each child map)
+            why = "removes entries of the generated tree"
+            if n["name"] in ("retain", "retain_mut") and n["args"] and H.peel(n["args"][0]).get("k") == "closure":
+                cl = H.peel(n["args"][0])
+                node_adt = None
+                for prm in cl["params"]:
+                    t = (prm.get("ty") or "").replace("&mut ", "").replace("&", "").strip()
+                    t = t.split("<")[0]
+                    if t in q.adts and t.startswith("quill::tree::mappings_diff::"):
+                        node_adt = t
+                if node_adt:
+                    need = set(f["name"] for f in q.adts[node_adt]["variants"][0]["fields"])
+                    used = set(x["name"] for x in H.walk(cl["body"]) if x.get("k") == "field" and x.get("adt") == node_adt)
+                    if need <= used:
+                        continue
+                    why = "the predicate ignores %s of %s" % (sorted(need - used), node_adt.split("::")[-1])
+            pruned.append((n, why))
+        R.inst(rid, "diff:nothing-with-changes-removed-after-generation", not pruned, sp=(pruned[0][0].get("sp") if pruned else fn["sp"]),
+               expect="the tree built by zip_map_combination is returned as generated (or pruned by a predicate over info, javadoc and every child map)",
+               got=["%s: %s" % (H.render(n)[:110], why) for n, why in pruned[:4]],
+               detail="a node without a change of its own still carries the changes of its children; pruning by the node's own action "
+                      "loses them, so apply(diff(A,B), A) != B")
     R.floor(rid, 36)
 
 
